@@ -202,7 +202,7 @@ EXPORT errno_t _wcsrtombs_s_chk(size_t *restrict retvalp, char *restrict dest,
     }
 
     /* libc stores up to len bytes: never more than dmax */
-    if (dest && len > dmax) {
+    if (dest && len >= dmax) {
         /* the source must then fit completely */
         l = wcsrtombs(dest, srcp, dmax, ps);
         if (l != (size_t)-1 && *srcp != NULL)
